@@ -334,6 +334,17 @@ def quaternion_distance_range(ctx, repo, pid):
                 return Num(Poly.sym("theta"))
             return None
     ok_all = True
+    # the minimisation over the sign of q must happen on the ANGLE (theta vs pi - theta, or |dot|): choosing one representative per
+    # quaternion first does not minimise it (two upper-hemisphere representatives can still be more than pi/2 apart)
+    FOLD_OPS = ("where", "minimum", "fmin", "abs", "absolute", "fabs", "min", "clip")
+    has_fold = any(isinstance(n, ast.Call) and src(n.func).split(".")[-1] in FOLD_OPS for n in ast.walk(fi.node)) or \
+        any(isinstance(n, ast.IfExp) for n in ast.walk(fi.node))
+    ctx.instance("RANGE")
+    if not has_fold:
+        ctx.violate("RANGE", f"{pid}.qdist.fold", "the quaternion distance is returned without the fold over the sign of q (theta -> pi - theta "
+                    "above pi/2): distances up to pi are possible, rotations that are close appear far apart", fi.where,
+                    "return np.where(theta > pi / 2, pi-theta, theta)", witness="no where / minimum / abs on the angle in distance_between_quaternions")
+        return False
     for shape in ("single", "rows"):
         interp = Interp(repo, H())
         if shape == "single":
